@@ -60,6 +60,8 @@ type c16Shape struct {
 	// post(v) maps the recursive result r to this level's result (identity for tail)
 	call func(callExpr string) string
 	post func(r []int64) []int64
+	// override: the canonical result when the shape does not return the accumulators (depth >= 1)
+	override string
 }
 
 func idPost(r []int64) []int64 { return r }
@@ -67,22 +69,26 @@ func idPost(r []int64) []int64 { return r }
 // For non-tail shapes the function returns an array; the shapes combine the
 // recursive result r (an array of the accumulators) element-wise.
 var c16Shapes = []c16Shape{
-	{"return f()", "tail", func(c string) string { return "return " + c }, idPost},
-	{"return true && f()", "tail", func(c string) string { return "return true && " + c }, idPost},
-	{"return n > 0 && f()", "tail", func(c string) string { return "return n > 0 && " + c }, idPost},
-	{"return false || f()", "tail", func(c string) string { return "return false || " + c }, idPost},
-	{"if/else return f()", "tail", func(c string) string { return "if n % 2 == 0 { return " + c + " } else { return " + c + " }" }, idPost},
-	{"for { return f() }", "tail", func(c string) string { return "for { return " + c + " }" }, idPost},
-	{"nested if return f()", "tail", func(c string) string { return "if n > 0 { if true { return " + c + " } }; return -1" }, idPost},
-	{"alias g := f; return g()", "free", func(c string) string { return "g := f; return g" + c[1:] }, idPost},
-	{"ternary false branch", "free", func(c string) string { return "return n < 0 ? [] : " + c }, idPost},
-	{"ternary true branch", "free", func(c string) string { return "return n > 0 ? " + c + " : []" }, idPost},
-	{"return [f()][0]", "nottail", func(c string) string { return "return [" + c + "][0]" }, idPost},
-	{"x := f(); return x", "nottail", func(c string) string { return "x := " + c + "; return x" }, idPost},
-	{"return id(f())", "nottail", func(c string) string { return "return id(" + c + ")" }, idPost},
-	{"return f() && true... array is truthy when non-empty", "nottail", func(c string) string { return "t := " + c + "; return t && t" }, idPost},
-	{"return f() + [] ", "nottail", func(c string) string { return "return " + c + " + []" }, idPost},
-	{"f(); return fixed", "nottail-discard", func(c string) string { return "last = " + c + "; return last" }, idPost},
+	{"return f()", "tail", func(c string) string { return "return " + c }, idPost, ""},
+	{"return true && f()", "tail", func(c string) string { return "return true && " + c }, idPost, ""},
+	{"return n > 0 && f()", "tail", func(c string) string { return "return n > 0 && " + c }, idPost, ""},
+	{"return false || f()", "tail", func(c string) string { return "return false || " + c }, idPost, ""},
+	{"if/else return f()", "tail", func(c string) string { return "if n % 2 == 0 { return " + c + " } else { return " + c + " }" }, idPost, ""},
+	{"for { return f() }", "tail", func(c string) string { return "for { return " + c + " }" }, idPost, ""},
+	{"nested if return f()", "tail", func(c string) string { return "if n > 0 { if true { return " + c + " } }; return -1" }, idPost, ""},
+	{"alias g := f; return g()", "free", func(c string) string { return "g := f; return g" + c[1:] }, idPost, ""},
+	{"ternary false branch", "free", func(c string) string { return "return n < 0 ? [] : " + c }, idPost, ""},
+	{"ternary true branch", "free", func(c string) string { return "return n > 0 ? " + c + " : []" }, idPost, ""},
+	{"return [f()][0]", "nottail", func(c string) string { return "return [" + c + "][0]" }, idPost, ""},
+	{"x := f(); return x", "nottail", func(c string) string { return "x := " + c + "; return x" }, idPost, ""},
+	{"return id(f())", "nottail", func(c string) string { return "return id(" + c + ")" }, idPost, ""},
+	{"return f() && true... array is truthy when non-empty", "nottail", func(c string) string { return "t := " + c + "; return t && t" }, idPost, ""},
+	{"return f() + [] ", "nottail", func(c string) string { return "return " + c + " + []" }, idPost, ""},
+	{"return f() || false", "nottail", func(c string) string { return "return " + c + " || false" }, idPost, ""},
+	{"return f() && true", "nottail", func(c string) string { return "return " + c + " && true" }, idPost, "true"},
+	{"return (f() || undefined) || false", "nottail", func(c string) string { return "return (" + c + " || undefined) || false" }, idPost, ""},
+	{"return !!f()", "nottail", func(c string) string { return "return !!" + c }, idPost, "true"},
+	{"f(); return fixed", "nottail-discard", func(c string) string { return "last = " + c + "; return last" }, idPost, ""},
 }
 
 func (c *c16) RunCase(r *fw.Rec, cs fw.Case) {
@@ -147,6 +153,11 @@ func (c *c16) RunCase(r *fw.Rec, cs fw.Case) {
 	loc := rng.Intn(3)
 	for i := 0; i < loc; i++ {
 		sb.WriteString(fmt.Sprintf("  l%d := n * %d\n", i, i+2))
+	}
+	if rng.Intn(3) == 0 {
+		// assignments through selectors on locals and parameters (their operands must leave the stack)
+		sb.WriteString("  box := [0, 0, {k: 0}]\n  box[n % 2] = " + ps[0] + "\n  box[2].k = n\n  box[0] += 1\n")
+		r.Inc("body:selector-assignments-on-locals")
 	}
 	every := depth/16 + 1
 	if capture {
@@ -221,6 +232,10 @@ func (c *c16) RunCase(r *fw.Rec, cs fw.Case) {
 		return
 	}
 	got := eng.Globals["res"]
+	if shape.override != "" && depth >= 1 {
+		want = shape.override
+		detail["want"] = want
+	}
 	detail["got"] = got
 	if got != want {
 		r.Violate("value:"+shape.class+":"+shape.name, "a self-recursive function returns a value different from the equivalent loop", detail)
